@@ -4,7 +4,7 @@ from . import gen, interp, runner
 from .core import Fail, h64
 from .lang import program_src
 
-PROFILES = ["scalars", "aggregates", "sums", "control", "functions", "pointers", "all", "equality"]
+PROFILES = ["scalars", "aggregates", "sums", "control", "functions", "pointers", "all", "equality", "probes"]
 
 
 def cfg_for(profile, avoid=frozenset()):
@@ -151,8 +151,71 @@ def equality_program(draw, avoid):
     return g.p
 
 
+def probe_program(draw, avoid):
+    """small programs around two constructs the type-directed generator reaches rarely: a value switch whose named arms are
+    narrower than its default arm, and functions with a variable number of arguments of a padded element type"""
+    from .lang import (Struct, Enum, Slice, Opt, Let, Print, Var, Lit, Call, Coerce, FnDecl, SwitchE, VariantLit, VariantTy, While, Assign, Bin, Index, Len,
+                       VOID, BOOL, I64, U64, U32, I32, U16, I16, U8, I8, USIZE, INTS, strip_distinct)
+    feats = set(gen.FEATURES) - {"faults", "pointers", "fn-pointers", "lambdas", "slices"}
+    g = gen.G(draw, {"features": feats, "avoid": set(avoid)})
+    body = []
+    for k in range(g.int(1, 3)):
+        if g.int(0, 1) == 0:
+            # --- value switch with narrow named arms and a wide default arm
+            wide = g.pick([U16, U32, U64, I16, I32, I64])
+            narrow = g.pick([t for t in INTS if t.signed == wide.signed and t.bits < wide.bits and t.name not in ("isize", "usize")])
+            nv = g.int(2, 5)
+            E = Enum(g.fresh("PE"), [(f"V{i}", g.pick([None, U8, U16, I32]), None) for i in range(nv)])
+            g.p.types.append(E)
+            named = g.int(1, nv - 1)
+            arms = [(VariantTy(E, i), Lit(narrow, g.int(0, min(narrow.max, 100)))) for i in range(named)]
+            arms.append(("default", Lit(wide, narrow.max + 1 + g.int(0, 1000))))
+            fn = g.fresh("pw")
+            annotated = g.chance(5)
+            sw = SwitchE(Var("s", E), g.fresh("sw"), arms, wide)
+            if annotated:
+                g.p.fns.append(FnDecl(fn, [("s", E)], wide, [Let("x", wide, False, sw)], Var("x", wide)))
+            else:
+                g.p.fns.append(FnDecl(fn, [("s", E)], wide, [], sw))
+            for i in range(nv):
+                payload = E.variants[i][1]
+                v = VariantLit(VariantTy(E, i), None if payload is None else Lit(payload, g.int(0, 50)))
+                body.append(Print(Call(fn, [Coerce(v, E)], wide)))
+            g.used.add("switch-join-widening")
+        else:
+            # --- variadic function over a padded element type
+            which = g.int(0, 2)
+            if which == 0:
+                T = Opt(g.pick([I32, U16, I64, U8]))
+            elif which == 1:
+                T = Struct(g.fresh("PV"), [("m0", g.pick([I64, U32])), ("m1", g.pick([U8, BOOL, U16]))])
+                g.p.types.append(T)
+            else:
+                T = g.pick([U8, I32, I64])
+            fn = g.fresh("pv")
+            ST = Slice(T)
+            loop_body = [Assign(Var("i", USIZE), "+", Lit(USIZE, 1))] + g.print_value(Index(Var("vals", ST), Bin("-", Var("i", USIZE), Lit(USIZE, 1), USIZE), T), T)
+            fbody = [Print(Var("first", I64)), Print(Len(Var("vals", ST), USIZE)), Let("i", USIZE, True, Lit(USIZE, 0)),
+                     While(None, Bin("<", Var("i", USIZE), Len(Var("vals", ST), USIZE), BOOL), loop_body)]
+            f = FnDecl(fn, [("first", I64), ("vals", ST)], VOID, fbody, None)
+            f.variadic = True
+            g.p.fns.append(f)
+            for _ in range(g.int(1, 3)):
+                n_args = g.int(0, 4)
+                from .lang import ExprS
+                body.append(ExprS(Call(fn, [Lit(I64, g.int(0, 99))] + [g.leaf(T, []) for _ in range(n_args)], VOID)))
+            g.used.add("varargs")
+            g.used.add("varargs-" + type(strip_distinct(T)).__name__)
+    g.p.fns.append(FnDecl("main", [], VOID, body, None))
+    g.p.used = g.used
+    return g.p
+
+
 def strategy(profile):
     from .core import load_findings
+    if profile == "probes":
+        from hypothesis import strategies as st
+        return st.composite(lambda draw: probe_program(draw, current_avoid()))()
     if profile == "equality":
         from hypothesis import strategies as st
         av = {AVOID_BY_KEY[f["key"]] for f in load_findings("C01") if f.get("status") == "open" and f["key"] in AVOID_BY_KEY}
@@ -178,7 +241,7 @@ def check(p, stats, scratch, profile):
     o = runner.run_case(scratch, {"main.capy": src})
     replay = {"files": {"main.capy": src}, "expect": {"stdout": out, "status": status, "fault": fault}}
     feats = sorted(getattr(p, "used", set()))
-    nontrivial = it.stmts_executed >= 8 and len(feats) >= 3 or (profile == "equality" and "eq-one-leaf-differs" in feats)
+    nontrivial = it.stmts_executed >= 8 and len(feats) >= 3 or (profile == "equality" and "eq-one-leaf-differs" in feats) or profile == "probes"
     if nontrivial:
         stats.nontrivial.add(h64(src))
     stats.cls("profile." + profile)
@@ -237,7 +300,7 @@ def replay_payload(payload, scratch):
 
 
 RULE = ("whole programs generated type-directed by construction from the fragment (profiles: scalars, aggregates, sums, control, "
-        "functions, pointers, all, equality = `==`/`!=` on whole arrays / structs / enums / optionals / slices whose values are equal, differ in exactly one leaf, or are unrelated), compiled by the real CLI and executed; oracle = reference interpreter (stdout + exit status). "
+        "functions, pointers, all, equality = `==`/`!=` on whole arrays / structs / enums / optionals / slices whose values are equal, differ in exactly one leaf, or are unrelated; probes = value switches whose named arms are narrower than the default arm, and variadic functions over padded element types), compiled by the real CLI and executed; oracle = reference interpreter (stdout + exit status). "
         "Non-trivial = the interpreter executed >= 8 statements and the program uses >= 3 feature classes (equality profile: a pair differing in exactly one leaf); distinct by source hash.")
 
 
